@@ -11,6 +11,7 @@ mutually inverse at the values met, `untransform_vect ∘ transform_vect` and
 -/
 import GemseoVerif.Lemmas.C19Round
 import GemseoVerif.Lemmas.C19Inv
+import GemseoVerif.Lemmas.C19Out
 import GemseoVerif.Analysis.C19Laws
 import GemseoVerif.Gen.C19Params
 
@@ -104,6 +105,124 @@ theorem untransform_transform (p : PS) (hwf : p.WF) (env : Env) (x : List Rat)
     (hx : x.length = p.ds.dimension) (h : RoundTripHyp p env true x) :
     ∃ y, p.transformVect env x = some y ∧ p.untransformVect env y = some x :=
   unnormalize_normalize_dist p hwf env true x hx h
+
+/-! ### The `out` argument: absent, another array, or the input array itself
+
+`Model/C19.lean` runs the calls statement by statement over a store of mutable arrays
+(`PS.normalizeVectOut`, ...).  For **every** store, every address `ax` of the input array and every
+`out` (`none`, `some ao` with `ao ≠ ax`, or `some ax`: the in-place call), the call raises exactly
+when the value-level map of the *original* content of the input raises, and otherwise
+(1) the returned array holds that map, (2) it is `out` when `out` is given (so `out` holds the map),
+(3) every other array of the store keeps its content — in particular the input when it is not `out`.
+All the theorems of this file about `PS.normalizeVect`, ... therefore hold for the content of the
+returned array / of `out`, whatever the aliasing. -/
+
+/-- `normalize_vect(x_vect, minus_lb, use_dist, out)` on 1-D arrays (`transform_vect` is the case
+    `minus_lb = use_dist = true`). -/
+theorem normalize_vect_out (p : PS) (env : Env) (m u : Bool) (h : Heap (List Rat)) (ax : Nat)
+    (out : Option Nat) (hax : ax < h.length) (hout : ∀ ao, out = some ao → ao < h.length) :
+    (p.normalizeVect env m u (h.read ax) = none → p.normalizeVectOut env m u h ax out = none) ∧
+    ∀ y, p.normalizeVect env m u (h.read ax) = some y →
+      ∃ h' r, p.normalizeVectOut env m u h ax out = some (h', r) ∧ h'.read r = y ∧
+        (∀ ao, out = some ao → r = ao) ∧
+        (∀ b, b < h.length → out ≠ some b → h'.read b = h.read b) :=
+  out_unfold (outCorrect_of u (p.ds.normalizeVect m) (p.normComb env) _ _
+    (fun x => by cases u <;> simp [PS.normalizeVect, PS.normComb])
+    (fun _ _ _ => rfl)) h ax out hax hout
+
+/-- `unnormalize_vect(x_vect, minus_lb, no_check, use_dist, out)` on 1-D arrays
+    (`untransform_vect`: `minus_lb = use_dist = true`). -/
+theorem unnormalize_vect_out (p : PS) (env : Env) (m u : Bool) (h : Heap (List Rat)) (ax : Nat)
+    (out : Option Nat) (hax : ax < h.length) (hout : ∀ ao, out = some ao → ao < h.length) :
+    (p.unnormalizeVect env m u (h.read ax) = none → p.unnormalizeVectOut env m u h ax out = none) ∧
+    ∀ y, p.unnormalizeVect env m u (h.read ax) = some y →
+      ∃ h' r, p.unnormalizeVectOut env m u h ax out = some (h', r) ∧ h'.read r = y ∧
+        (∀ ao, out = some ao → r = ao) ∧
+        (∀ b, b < h.length → out ≠ some b → h'.read b = h.read b) :=
+  out_unfold (outCorrect_of u (p.ds.unnormalizeVect m) (p.unnormComb env) _ _
+    (fun x => by cases u <;> simp [PS.unnormalizeVect, PS.unnormComb])
+    (fun _ _ _ => rfl)) h ax out hax hout
+
+/-- The same for 2-D arrays (one point per row). -/
+theorem normalize_vect2_out (p : PS) (env : Env) (m u : Bool) (h : Heap (List (List Rat)))
+    (ax : Nat) (out : Option Nat) (hax : ax < h.length)
+    (hout : ∀ ao, out = some ao → ao < h.length) :
+    (p.normalizeVect2 env m u (h.read ax) = none → p.normalizeVect2Out env m u h ax out = none) ∧
+    ∀ y, p.normalizeVect2 env m u (h.read ax) = some y →
+      ∃ h' r, p.normalizeVect2Out env m u h ax out = some (h', r) ∧ h'.read r = y ∧
+        (∀ ao, out = some ao → r = ao) ∧
+        (∀ b, b < h.length → out ≠ some b → h'.read b = h.read b) :=
+  out_unfold (outCorrect_of u (List.map (p.ds.normalizeVect m)) (p.normComb2 env) _ _
+    (fun x => by cases u <;> simp [PS.normalizeVect2, PS.normComb2])
+    (fun _ _ _ => rfl)) h ax out hax hout
+
+theorem unnormalize_vect2_out (p : PS) (env : Env) (m u : Bool) (h : Heap (List (List Rat)))
+    (ax : Nat) (out : Option Nat) (hax : ax < h.length)
+    (hout : ∀ ao, out = some ao → ao < h.length) :
+    (p.unnormalizeVect2 env m u (h.read ax) = none →
+      p.unnormalizeVect2Out env m u h ax out = none) ∧
+    ∀ y, p.unnormalizeVect2 env m u (h.read ax) = some y →
+      ∃ h' r, p.unnormalizeVect2Out env m u h ax out = some (h', r) ∧ h'.read r = y ∧
+        (∀ ao, out = some ao → r = ao) ∧
+        (∀ b, b < h.length → out ≠ some b → h'.read b = h.read b) :=
+  out_unfold (outCorrect_of u (List.map (p.ds.unnormalizeVect m)) (p.unnormComb2 env) _ _
+    (fun x => by cases u <;> simp [PS.unnormalizeVect2, PS.unnormComb2])
+    (fun _ _ _ => rfl)) h ax out hax hout
+
+/-- **In-place round trip**: `transform_vect(x, out=x)` followed by `untransform_vect(x, out=x)`
+    leaves in the array `x` its original content (and touches no other array of the store), under
+    the hypotheses of `untransform_transform`. -/
+theorem untransform_transform_in_place (p : PS) (hwf : p.WF) (env : Env) (h : Heap (List Rat))
+    (ax : Nat) (hax : ax < h.length) (hx : (h.read ax).length = p.ds.dimension)
+    (hrt : RoundTripHyp p env true (h.read ax)) :
+    ∃ h1 h2, p.transformVectOut env h ax (some ax) = some (h1, ax) ∧
+      p.untransformVectOut env h1 ax (some ax) = some (h2, ax) ∧
+      h2.read ax = h.read ax ∧ ∀ b, b < h.length → b ≠ ax → h2.read b = h.read b := by
+  obtain ⟨y, hy, hback⟩ := untransform_transform p hwf env (h.read ax) hx hrt
+  obtain ⟨h1, r1, e1, v1, o1, f1⟩ :=
+    (normalize_vect_out p env true true h ax (some ax) hax (fun a ha => by cases ha; exact hax)).2 y hy
+  have hr1 : r1 = ax := o1 ax rfl
+  subst hr1
+  have hlen1 : h.length ≤ h1.length := by
+    have hc := (outCorrect_of true (p.ds.normalizeVect true) (p.normComb env)
+      (p.normalizeVect env true true) (p.normalizeVectOut env true true)
+      (fun x => by simp [PS.normalizeVect, PS.normComb]) (fun _ _ _ => rfl))
+      h r1 (some r1) hax (fun a ha => by cases ha; exact hax)
+    obtain ⟨h', r', e', hp⟩ := hc.2 y hy
+    rw [e1] at e'
+    cases e'
+    exact hp.grows
+  have hax1 : r1 < h1.length := Nat.lt_of_lt_of_le hax hlen1
+  obtain ⟨h2, r2, e2, v2, o2, f2⟩ :=
+    (unnormalize_vect_out p env true true h1 r1 (some r1) hax1
+      (fun a ha => by cases ha; exact hax1)).2 (h.read r1) (by rw [v1]; exact hback)
+  have hr2 : r2 = r1 := o2 r1 rfl
+  subst hr2
+  refine ⟨h1, h2, e1, e2, v2, fun b hb hne => ?_⟩
+  rw [f2 b (Nat.lt_of_lt_of_le hb hlen1) (by simpa using fun e => hne e.symm),
+    f1 b hb (by simpa using fun e => hne e.symm)]
+
+/-- Non-vacuity: a deterministic variable `d` on `[-1, 3]` and a uniform random variable `u` on
+    `[1, 3]` (CDF `(x - 1) / 2`); the in-place call `transform_vect(x, out=x)` on `x = [1, 2]`
+    leaves `[1/2, 1/2]` in `x` and does not touch the other array of the store. -/
+example :
+    (exampleSpace.transformVectOut exampleEnv [[1, 2], [9, 9]] 0 (some 0)).map
+      (fun r => (r.1.read 0, r.1.read 1, r.2)) = some ([1/2, 1/2], [9, 9], 0) ∧
+    (exampleSpace.transformVectOut exampleEnv [[1, 2], [9, 9]] 0 (some 1)).map
+      (fun r => (r.1.read 0, r.1.read 1, r.2)) = some ([1, 2], [1/2, 1/2], 1) ∧
+    (exampleSpace.untransformVectOut exampleEnv [[1/2, 1/2], [9, 9]] 0 (some 0)).map
+      (fun r => (r.1.read 0, r.1.read 1, r.2)) = some ([1, 2], [9, 9], 0) := by
+  decide +kernel
+
+/-- What the theorems exclude: forwarding `out` to the geometric map (an allocation saved) makes
+    the views on `x_vect` hold the geometrically normalised values when `out` is the input array:
+    the uniform variable gets `cdf((2 - 1) / 2) = -1/4` instead of `cdf(2) = 1/2`. -/
+example :
+    let p := exampleSpace
+    let h : Heap (List Rat) := [[1, 2], [9, 9]]
+    let g := dsVectOut (p.ds.normalizeVect true) h 0 (some 0)
+    p.normComb exampleEnv (g.1.read 0) (g.1.read g.2) = some [1/2, -1/4] := by
+  decide +kernel
 
 /-! ### Every history of admissible edits yields a well-formed space -/
 
